@@ -168,16 +168,37 @@ def tiny_image():
     return bytes(img)
 
 
+def damage_subject(which):
+    """-> (file name stem, image bytes, gz bytes, commands)"""
+    if which == 'noise':
+        # incompressible file body: the deflate stream is long (stored / literal-heavy blocks), level 1
+        import hashlib
+        body = b''.join(hashlib.sha256(b'%d' % i).digest() for i in range(2600 // 32 + 1))[:2600]
+        img = bytearray(b'\0' * (14 * 256))
+        s0, s1 = disc.catalogue(b'NOISE', 3, 1, 400, [disc.Entry(b'F', b'$', False, 0, 0, 2600, 2, body=body)])
+        img[0:256], img[256:512] = s0, s1
+        img[512:512 + 2600] = body
+        img = bytes(img)
+        return 'ssd', img, images.gz(img, 1), [['cat'], ['type', '--binary', 'F']]
+    if which == 'members':
+        img = tiny_image()
+        return 'ssd', img, gz_members(img, [300, 900], 9), [['cat'], ['type', '--binary', 'F']]
+    if which == 'hfe':
+        v = images.valid_images(small=True)['hfe']
+        return 'hfe', v, images.gz(v, 9), [['cat'], ['type', '--binary', 'HELLO']]
+    img = tiny_image()
+    return 'ssd', img, images.gz(img, 9), [['cat'], ['type', '--binary', 'F']]
+
+
 def w_damage(case):
     """damaged .gz streams: each must be rejected with a diagnostic or behave exactly like the undamaged file"""
     res = mkres()
     try:
         d = run.fresh_dir('c10')
-        img = tiny_image()
-        z0 = images.gz(img, 9)
-        dfsrun.write(d, 'good.ssd.gz', z0)
-        cmds = [['cat'], ['type', '--binary', 'F']]
-        good = [dfsrun.dfs(BIN, ['--file', 'good.ssd.gz'] + c, d) for c in cmds]
+        ext, img, z0, cmds = damage_subject(case.get('subject', 'tiny'))
+        good_name, bad_name = 'good.%s.gz' % ext, 'bad.%s.gz' % ext
+        dfsrun.write(d, good_name, z0)
+        good = [dfsrun.dfs(BIN, ['--file', good_name] + c, d) for c in cmds]
         for kind, arg in case['damages']:
             if kind == 'trunc':
                 z = z0[:arg]
@@ -198,14 +219,14 @@ def w_damage(case):
                 z = z0 + bytes([arg]) * 3
             elif kind == 'empty':
                 z = b''
-            dfsrun.write(d, 'bad.ssd.gz', z)
+            dfsrun.write(d, bad_name, z)
             st, refdata = ref_inflate(z)
             for c, g in zip(cmds, good):
-                r = dfsrun.dfs(BIN, ['--file', 'bad.ssd.gz'] + c, d)
+                r = dfsrun.dfs(BIN, ['--file', bad_name] + c, d)
                 res['n'] += 1
                 same = (r.status() == g.status() and r.out == g.out)
                 rejected = (r.exit not in (0,) and not r.sig and not r.timeout and r.err.strip())
-                sig = 'C10:damage:%s' % kind
+                sig = 'C10:damage:%s%s' % (kind, '' if case.get('subject', 'tiny') == 'tiny' else ':' + case['subject'])
                 if r.sig or r.timeout:
                     res['viol'].append((sig + ':crash', '%s %s: %s' % (kind, arg, r.status())))
                 elif st == 'bad' and not rejected:
@@ -221,7 +242,7 @@ def w_damage(case):
                     res['viol'].append((sig + ':neither-rejected-nor-identical', '%s %s %r: %s out=%r' % (kind, arg, c, r.status(), r.out[:60])))
                 else:
                     bump(res, 'rejected' if rejected else 'identical')
-            res['nt'].append((kind, arg))
+            res['nt'].append((case.get('subject', 'tiny'), kind, arg))
         if res['viol']:
             res['case'] = case
     except Exception:
@@ -341,6 +362,13 @@ def fam_damage(tier):
     dam += [('raw', 0), ('gzgz', 0), ('zlib', 0), ('deflate', 0), ('empty', 0), ('append', 0), ('append', 0x1F)]
     for i in range(0, len(dam), 60):
         yield {'w': 'damage', 'damages': dam[i:i + 60]}
+    if tier == 'thorough':
+        # the same for a long literal-heavy stream, a three-member stream and a compressed flux image
+        for subject in ('noise', 'members', 'hfe'):
+            n = len(damage_subject(subject)[2])
+            dam = [('trunc', k) for k in range(0, n)] + [('flip', b) for b in range(0, 8 * n)] + [('append', 0), ('append', 0x1F)]
+            for i in range(0, len(dam), 120):
+                yield {'w': 'damage', 'subject': subject, 'damages': dam[i:i + 120]}
 
 
 FAMILIES = [('P-paths-with-inner-extensions', fam_paths), ('L-levels-sizes', fam_levels), ('G-container-geometry', fam_geometry), ('M-members', fam_members),
